@@ -412,7 +412,8 @@ def gen_invalid(rng, kind=None):
         a['flat_time'] = flat
         a['flat_area'] = sgn * sig(G * rng.uniform(1.03, 2) * flat, 6)
     elif kind == 'zero_ramps':
-        # rise_time = fall_time = 0 survive the `or` defaults and must be rejected by the timing check
+        # rise_time = fall_time = 0 survive the `or` defaults: the slew test divides by zero before the
+        # timing validation is reached (or the amplitude test fails first)
         a['rise_time'], a['fall_time'] = 0.0, 0.0
         which = rng.choice(['amp', 'area', 'fa', 'amp_dur', 'area_dur'])
         ft = dur()
@@ -584,7 +585,7 @@ def corpus():
     c('x.override_grad', area=100.0, max_grad=1e5)
     c('x.override_both', area=-100.0, max_grad=2e6, max_slew=2e10)
     c('x.delay', area=10.0, delay=1.5e-4)
-    # non-positive ramps / negative flat time must be rejected (third repair of this round)
+    # non-positive ramps / negative flat time must be rejected (final timing validation)
     c('w.neg_flat', amplitude=1000.0, flat_time=-1e-4)
     c('w.neg_flat_fa', flat_area=1.0, flat_time=-1e-3)
     c('w.neg_flat_area', area=1.0, flat_time=-1e-4, rise_time=3e-4)
@@ -615,9 +616,8 @@ def classify(e):
         ('AssertionError', 'Probably amplitude is violated', 'not_possible'),
         ('ValueError', 'too short for the given `rise_time`', 'dur_short_rise'),
         ('ValueError', 'Must supply `rise_time`', 'must_rise'),
-        ('ValueError', 'too short for the given `amplitude`', 'dur_short_amp'),
         ('ValueError', 'Must supply area or duration', 'area_or_duration'),
-        ('ValueError', 'must be positive and `flat_time` must not be negative', 'timing'),
+        ('ValueError', 'Invalid timing:', 'timing'),
         ('ValueError', 'Refined amplitude', 'amp'),
         ('ValueError', 'for ramp up is larger', 'slew_rise'),
         ('ValueError', 'for ramp down is larger', 'slew_fall'),
